@@ -2,6 +2,7 @@ import AvoVerif.Drv.Common
 import AvoVerif.Model.RegHW
 import AvoVerif.Model.RegCtx
 import AvoVerif.Model.RegProc
+import AvoVerif.Model.RegAllocn
 import AvoVerif.Gen.Regs
 import AvoVerif.Oracle.RegHW
 /-
@@ -163,6 +164,15 @@ def acceptFresh (k i j idi idj : Nat) : String := verdict (decide (FreshOK k i j
 def acceptClass (g : List HWRow) (bits : List Bool) : String := verdict (decide (ClassOK g bits)) "bad-classification"
 def acceptVClass (kind mask : Nat) (bits : List Bool) : String :=
   verdict (decide (VClassOK kind mask bits)) "bad-classification"
+def acceptAllocLookup (id mask : Nat) (entry : Option Nat) (res : Option (Nat × Nat × Nat)) (rd : Nat × Nat) : String :=
+  verdict (decide (AllocLookupOK id mask entry res rd)) "bad-allocation-lookup"
+
+/-- `k1 v1 k2 v2 …` -/
+def parsePairs : List String → Option (List (Nat × Nat))
+  | [] => some []
+  | k :: v :: rest => do some ((← k.toNat?, ← v.toNat?) :: (← parsePairs rest))
+  | _ => none
+
 def acceptCtxFresh (k nreq : Nat) (ids : List Nat) : String :=
   verdict (decide (CtxFreshOK k nreq ids)) "bad-context-collision"
 
@@ -345,6 +355,30 @@ def splitHist : List String → Option (List ProcOp × List String)
 table after that history — which is the table (`proc_table_const`), so the inner request is answered as in a
 clean process.  `tblh`: has the whole exhaustive table / API stream changed? -/
 def handleAfter : Handler
+  | "alook" :: id :: mask :: n :: pairs => do
+    -- reg.Allocation{pairs}: LookupRegister(r), LookupDefault(r.ID()), LookupRegisterDefault(r) for r = (id, mask)
+    let id ← id.toNat?
+    let mask ← mask.toNat?
+    let a ← parsePairs pairs
+    if a.length != (← n.toNat?) then none else
+    let rd := Allocn.lookupRegisterDefault regs a id mask
+    -- … and operand.ApplyAllocation on the register and on a memory operand with it as base: LookupRegisterDefault again
+    some s!"{showLookup (Allocn.lookupRegister regs a id mask)} {Allocn.lookupDefault a id} {rd.1}:{rd.2} {rd.1}:{rd.2} {rd.1}:{rd.2}"
+  | "accept-alookup" :: id :: mask :: entry :: rdid :: rdmask :: res => do
+    let entry ← if entry == "-" then some none else (entry.toNat?).map some
+    some (acceptAllocLookup (← id.toNat?) (← mask.toNat?) entry (← parseRes res) (← rdid.toNat?, ← rdmask.toNat?))
+  | "amerge" :: na :: rest => do
+    -- a.Merge(b): `err`, or `ok` and the entries afterwards (a's keys in order, then b's new keys)
+    let na ← na.toNat?
+    let a ← parsePairs (rest.take (2 * na))
+    match rest.drop (2 * na) with
+    | nb :: bs => do
+      let b ← parsePairs bs
+      if b.length != (← nb.toNat?) then none else
+      if !Allocn.mergeOK a b then some "err" else
+      let extra := b.filter fun e => (a.lookup e.1).isNone
+      some (joinSp ("ok" :: (a ++ extra).map fun e => s!"{e.1}:{e.2}"))
+    | _ => none
   | "tblh" :: n :: toks => do
     let n ← n.toNat?
     if toks.length != n then none else
@@ -364,6 +398,6 @@ def handlers : List (String × Handler) :=
    "accept-lookup", "accept-lookup-virtual", "accept-vas", "accept-ctor", "accept-fresh", "accept-class", "accept-vclass",
    "vnew", "accept-vnew", "vlook", "accept-vlook", "accept-lookup-junk", "accept-alloc-fail", "accept-var",
    "accept-vlookdflt", "ctxh", "accept-ctxfresh"].map (·, handle) ++
-  ["tblh", "after", "accept-after"].map (·, handleAfter)
+  ["tblh", "after", "accept-after", "alook", "accept-alookup", "amerge"].map (·, handleAfter)
 
 end Avo.Drv.C20
